@@ -526,7 +526,10 @@ pub fn check_compute_delta(ctx: &mut Ctx, bytes: &[u8], id: &str, slots: &[(u16,
                     d.i64(*c as i64);
                 }
                 if eps > 0.0 {
-                    ctx.nontrivial(d.finish());
+                    let dg = d.finish();
+                    if dg & 0xf == 0 {
+                        ctx.nontrivial(dg);
+                    }
                     ctx.count("delta_locations_with_partial_scalar", 1);
                 }
             }
